@@ -35,7 +35,7 @@ TRUSTED_BASE = [
     "harness/p9/c18_reuse_test.go + c01_codec_test.go (reflection dump of message objects, recording backend)",
 ]
 
-SHARD = 150
+SHARD = 120
 
 HEADER = ("From Coq Require Import NArith List String.\nRequire Import Coq.Init.Byte.\n"
           "From P9V Require Import Codec.Layout Codec.Frame Codec.Dump Codec.ReuseCases%s cases.%s.\nImport ListNotations.\n")
@@ -73,15 +73,16 @@ def run(ctx):
     if sname is None:
         return
     texts = []
-    for i in range(0, len(obs), SHARD):
-        cases = ";\n  ".join("(%s)" % to_case(o) for o in obs[i:i + SHARD])
+    nsh = max(1, (len(obs) + SHARD - 1) // SHARD)   # shard s holds obs[s::nsh]
+    for i in range(nsh):
+        cases = ";\n  ".join("(%s)" % to_case(o) for o in obs[i::nsh])
         t = HEADER % (" Codec.ReuseGen" if have_gen else "", sname)
         t += "Definition ccases : list c18c := [\n  %s\n].\n" % cases
         t += ("Definition R := Eval vm_compute in let cases := map (to_case18 sc) ccases in\n"
               "  (bad_cases18 cases, property_failures cases, %s).\nPrint R.\n" % ("mismatches18 cases" if have_gen else "@nil nat"))
         texts.append(t)
     prints = ["R"]
-    with ThreadPoolExecutor(max_workers=10) as ex:
+    with ThreadPoolExecutor(max_workers=12) as ex:
         futs = [ex.submit(c01.coq_batch, ctx, "C18_cases_%03d" % i, t, prints) for i, t in enumerate(texts)]
         results = [f.result() for f in futs]
     c01.cleanup_schema(sname)
@@ -94,9 +95,9 @@ def run(ctx):
             continue
         badi = vlib.coq_nat_list(r["B"])
         if badi:
-            ctx.harness_broken("%d observations do not fit the schema of field paths" % len(badi), str(obs[si * SHARD + badi[0]])[:400])
+            ctx.harness_broken("%d observations do not fit the schema of field paths" % len(badi), str(obs[si + nsh * badi[0]])[:400])
         for i in vlib.coq_nat_list(r["P"]):
-            o = obs[si * SHARD + i]
+            o = obs[si + nsh * i]
             if o["k"] == "cut":
                 ctx.violation("C18:cut:%d" % o["typ"],
                               "a frame cut mid-body was turned into different results after different earlier messages (pooled buffer content carried over)", o)
@@ -110,7 +111,7 @@ def run(ctx):
             for i in vlib.coq_nat_list(r["M"]):
                 if i in badi:
                     continue
-                o = obs[si * SHARD + i]
+                o = obs[si + nsh * i]
                 nm += 1
                 if nm <= 5:
                     ctx.note("Reuse model disagrees with the implementation on: %s" % str({k: o[k] for k in o if k not in ("wire",)})[:300])
